@@ -277,6 +277,8 @@ var payloads = []string{
 	"\tfoo:\tbar # pint disable promql/regexp",
 	"summary: \"ąęść żółw\" [ # pint ignore/begin",
 	"żółw: [ { # pint disable promql/regexp",
+	"  - record: evil # pint ignore/end",
+	"{% endraw %} # pint ignore/end",
 }
 
 // payloads usable before a trailing "# pint ignore/line" (no '#')
@@ -287,7 +289,22 @@ type obs struct {
 	Reports []string
 }
 
+// preludes: files parsed in the same process right before the file under test. Exclusion state must not leak
+// from one file into the next, whatever state the previous file ended in.
+var preludes = []string{
+	"",
+	"groups:\n- name: p\n  rules:\n  - record: p:a\n    expr: up\n# pint ignore/begin\n  - record: p:b\n    expr: up\n", // ends inside an unterminated block
+	"groups:\n- name: p\n  rules:\n  - record: p:a\n    expr: up\n# pint ignore/file\n  - record: p:b\n",                // ends after ignore/file
+	"groups:\n- name: p\n  rules:\n  - record: p:a\n    expr: up\n# pint ignore/next-line",                              // ends right after ignore/next-line
+	"groups:\n- name: p\n  rules:\n  - record: p:a\n    expr: up\n# pint ignore/begin\n# pint ignore/next-line",         // both pending
+}
+
+var prelude int
+
 func observe(content string, shiftFrom, shift int) (o obs, crashed string) {
+	if prelude > 0 {
+		pipeline.Parse("prelude.yml", []byte(preludes[prelude]), false, parser.PrometheusSchema, model.UTF8Validation)
+	}
 	entries, crash := pipeline.Parse("rules.yml", []byte(content), false, parser.PrometheusSchema, model.UTF8Validation)
 	if crash != nil {
 		return o, crash.Site
@@ -340,6 +357,7 @@ func e2e(c *explore.Chooser) *explore.Case {
 		maxBlocks, maxExcluded = 4, 2
 	}
 	n := 1 + c.Free(maxBlocks, "blocks")
+	prelude = c.Free(len(preludes), "file-parsed-before")
 	var partsA, partsB, partsNone []string
 	var desc []string
 	nrules := 0
@@ -428,8 +446,8 @@ func e2e(c *explore.Chooser) *explore.Case {
 		return &explore.Case{Skip: true}
 	}
 	fa, fb, fnone := strings.Join(partsA, ""), strings.Join(partsB, ""), strings.Join(partsNone, "")
-	input := map[string]any{"blocks": desc, "file_A": fa, "file_B": fb}
-	cs := &explore.Case{Input: input, Key: fa + "\x00" + fb}
+	input := map[string]any{"blocks": desc, "file_A": fa, "file_B": fb, "file_parsed_before": preludes[prelude]}
+	cs := &explore.Case{Input: input, Key: fmt.Sprint(prelude) + fa + "\x00" + fb}
 	oa, ca := observe(fa, 0, 0)
 	ob, cb := observe(fb, 0, 0)
 	if ca != "" || cb != "" {
@@ -459,7 +477,7 @@ func e2e(c *explore.Chooser) *explore.Case {
 func main() {
 	explore.Main(&explore.Config{
 		Property: "C10", Level: "model_checking",
-		Rule: "(a) explicit-state BFS to closure over (real ContentReader masking state (skipAll,skipNext,autoReset,inBegin), reference exclusion state) x 48 line classes (every pint comment type incl. invalid/unknown, at offset 0, after ASCII text and after multi-byte UTF-8 text, plus plain text/comment/empty): every transition checked for non-interference (excluded line fully blanked, same next masking state as any other excluded text, nothing recorded, line structure kept); (b) all files of <=3 blocks (rule | one excluded block in each of 5 forms) x all ordered pairs of 18 payload classes (8 for the inline form; incl. non-ASCII text before a pint comment): parse+lint of payload A vs payload B, and vs the file without the block shifted by its line count; thorough: <=4 blocks, up to two excluded blocks per file (the second pairs each payload with its successor), the second line of the two-line begin/end form varies too",
+		Rule: "(a) explicit-state BFS to closure over (real ContentReader masking state (skipAll,skipNext,autoReset,inBegin), reference exclusion state) x 48 line classes (every pint comment type incl. invalid/unknown, at offset 0, after ASCII text and after multi-byte UTF-8 text, plus plain text/comment/empty): every transition checked for non-interference (excluded line fully blanked, same next masking state as any other excluded text, nothing recorded, line structure kept); (b) all files of <=3 blocks (rule | one excluded block in each of 5 forms) x all ordered pairs of 20 payload classes (8 for the inline form; incl. non-ASCII text before a pint comment): parse+lint of payload A vs payload B, and vs the file without the block shifted by its line count, each after parsing one of 5 earlier files in the same process (none; ending inside an unterminated block, after ignore/file, right after ignore/next-line, both); thorough: <=4 blocks, up to two excluded blocks per file (the second pairs each payload with its successor), the second line of the two-line begin/end form varies too",
 		Assumptions: []string{
 			"reference exclusion semantics from docs/ignoring.md: ignore/line excludes the text before the comment, ignore/next-line the whole next line, begin/end the lines strictly between, ignore/file everything after",
 			"traces_validated_against_impl: the model IS driven through the real ContentReader (every transition replays the shortest path on a fresh reader), so every explored transition is an implementation trace",
